@@ -458,13 +458,15 @@ namespace GeographicLib {
       throw GeographicErr("Latitude for SetScale not in [-"
                           + to_string(Math::qd) + "d, "
                           + to_string(Math::qd) + "d]");
-    if (fabs(lat) == Math::qd && !(_nc == 0 && lat * _n > 0))
+    if (fabs(lat) == Math::qd && !(_nc == 0 && lat * _sign * _n > 0))
       throw GeographicErr("Incompatible polar latitude in SetScale");
     real x, y, gamma, kold;
     Forward(0, lat, 0, x, y, gamma, kold);
     k /= kold;
     _scale *= k;
     _k0 *= k;
+    _nrho0 *= k;
+    _drhomax *= k;
   }
 
 } // namespace GeographicLib
